@@ -478,6 +478,9 @@ func failClass(err error) string {
 	if c == "other" && err != nil && strings.Contains(err.Error(), "gas uint64 overflow") {
 		return "overflow"
 	}
+	if c == "other" && err != nil && strings.Contains(err.Error(), "return data out of bounds") {
+		return "rdoob"
+	}
 	return c
 }
 
